@@ -100,6 +100,13 @@ ADDENDA_5 = {
     "C11": " hostile-frames: a raw publisher hand-encodes a message whose frame payload is 0-40 bytes short of the limit while a library subscriber listens; the next message must still reach that subscriber.",
     "C14": " invalid-payloads compares every yielded value with the message sent and interleaves valid messages whose compressed form lost its last 1-4 bytes (error or the message, nothing else; later payloads unaffected).",
 }
+ADDENDA_6 = {
+    "C01": " In a fifth of the multi-topic runs the hand-encoding publisher does not wait for the registration answer (registration and messages leave in one write).",
+    "C04": " In a quarter of the runs a requestor that is not this library sends requests with a forged cid and request ids the library streams use too; no library call may return a reply that is not its own.",
+    "C07": " Names padded with ASCII/Unicode white space; every violating name is registered once more in a role of the other messaging pattern and must get the same refusal.",
+    "C11": " Registrations whose violating name fills the frame (0-300 bytes below the limit) must still be answered with an error frame.",
+    "C14": " A quarter of the byte payloads already are compressed streams (zstd/gzip/zlib/lz4/brotli output).",
+}
 ADDENDA = {
     "C02": " N part (slow-requestors): raw requestors behind 1 kB-1 MB stream windows burst requests at a library replier, stall, then read; each must receive exactly its own replies, once, intact, cid stripped.",
     "C03": " Also: truly empty items; 1-2 MB made of thousands of small messages under batch sizes up to 20000 (batches cut by encoded size); subscribers read during or only after publishing.",
@@ -125,7 +132,7 @@ def main():
         if pid not in CHECKS:
             continue
         cat, engine, technique, text, note, ref = CHECKS[pid]
-        text = text + ADDENDA.get(pid, "") + ADDENDA_3.get(pid, "") + ADDENDA_5.get(pid, "")
+        text = text + ADDENDA.get(pid, "") + ADDENDA_3.get(pid, "") + ADDENDA_5.get(pid, "") + ADDENDA_6.get(pid, "")
         engine = ENGINE_OVERRIDE.get(pid, engine)
         checks.append({
             "property_id": pid,
